@@ -1,23 +1,25 @@
 #!/bin/bash
-# C10 mutation self-test.  usage: harness/c10_mutations.sh snapshot|repaired   (log: work/c10_mut_<mode>.log)
-#   snapshot  base = copy of /repo; switches as delivered (snapshot); mutations M1..M11 of the anchored mechanism
-#   repaired  base = copy of /repo + fixes/C10-prodcons-per-segment.diff + fixes/C10-segment-parameters-keep-assignments.diff,
-#             both switches flipped to `repaired` for the duration of the script (flipped back at the end);
-#             mutations R1..R8 of the REPAIRED code
+# C10 mutation self-test.  usage: harness/c10_mutations.sh current|assign   (log: work/c10_mut_<mode>.log)
+#   current  base = copy of /repo (producers/consumers repaired since b146866, views put the model's parameters back
+#            since 4167248); mutations M* of the anchored mechanism, R* of _get_fluxes_by_sign, V* of the put-back
+#            mechanism, S* = the seeded changes seeded/C10-1 and seeded/C10-4 re-based onto 4167248 (their stored
+#            patch.diff no longer applies) and seeded/C10-5
+#   assign   base = copy of /repo + fixes/C10-segment-parameters-keep-assignments.diff, switch `assign` flipped to
+#            `repaired` for the duration of the script (flipped back at the end); mutation R7 (revert of that repair)
 # Never run while another ./check C10 runs (shared Gen file, corr dir and switch).
-MODE=${1:-snapshot}
+MODE=${1:-current}
 BASE=/var/tmp/mxlpy-C10-mb
 M=/var/tmp/mxlpy-C10-m
 cd /verif || exit 2
-rm -rf $BASE $M; cp -a /repo $BASE
+rm -rf $BASE $M; mkdir -p $BASE; rsync -a --exclude .git --exclude docs --exclude publication-figures /repo/ $BASE/
 restore() {
-  if [ "$MODE" = repaired ]; then python3 tools/c10_switch.py prodcons snapshot >/dev/null; python3 tools/c10_switch.py assign snapshot >/dev/null; fi
+  if [ "$MODE" = assign ]; then python3 tools/c10_switch.py assign snapshot >/dev/null; fi
   rm -rf $M $BASE; ./check --regen >/dev/null 2>&1
 }
 trap restore EXIT
-if [ "$MODE" = repaired ]; then
-  (cd $BASE && patch -p1 < /verif/fixes/C10-prodcons-per-segment.diff >/dev/null && patch -p1 < /verif/fixes/C10-segment-parameters-keep-assignments.diff >/dev/null) || exit 2
-  python3 tools/c10_switch.py prodcons repaired mutation-test >/dev/null; python3 tools/c10_switch.py assign repaired mutation-test >/dev/null
+if [ "$MODE" = assign ]; then
+  (cd $BASE && patch -p1 < /verif/fixes/C10-segment-parameters-keep-assignments.diff >/dev/null) || exit 2
+  python3 tools/c10_switch.py assign repaired mutation-test >/dev/null
 fi
 out=$(MXLPY_VERIF_REPO=$BASE ./check C10 2>&1); echo "BASE ($MODE): exit=$? :: $(echo "$out" | tail -1)"
 run() {
@@ -30,49 +32,50 @@ run() {
   first=$(echo "$out" | grep '^VIOLATION' | grep -v no-failing-input-found | head -1); [ -z "$first" ] && first=$(echo "$out" | grep '^VIOLATION' | head -1)
   what=$(echo "$out" | grep -B1 '^VIOLATION' | grep -v '^VIOLATION\|^--' | head -1 | cut -c1-200)
   rp=$(echo "$first" | sed -n 's/.*replay=\([^ ]*\).*/\1/p')
-  facts=$(python3 -c "import json;f=json.load(open('/verif/work/evidence-scratch/C10.json'))['coverage']['gen_facts'];print(' '.join(f'{k}={v}' for k,v in f.items() if v not in ('true','NRFixed')))")
+  facts=$(python3 -c "import json;f=json.load(open('/verif/work/evidence-scratch/C10.json'))['coverage']['gen_facts'];print(' '.join(f'{k}={v}' for k,v in f.items() if v not in ('true','NRFixed','PKRows','VKRestores') and k != 'view_bodies'))")
   rcode=NA
   if [ -n "$rp" ]; then cp "$rp" work/c10_mut_$name.json; MXLPY_VERIF_REPO=$M ./check C10 --replay work/c10_mut_$name.json >/dev/null 2>&1; rcode=$?; fi
   corr=$(python3 -c "import json;c=json.load(open('/verif/work/evidence-scratch/C10.json'))['coverage'];print(c.get('correspondence_mismatches'))")
   echo "MUT $name: exit=$code violations=$viol replay_exit=$rcode facts=[$facts] corr_mismatches=$corr :: $what :: $first"
 }
+# edit.py OLD NEW: replace exactly one occurrence in simulation.py (fails when the shape is not there)
+edit() { python3 - "$1" "$2" "${3:-src/mxlpy/simulation.py}" <<'P'
+import sys
+a, b, p = sys.argv[1].encode().decode('unicode_escape'), sys.argv[2].encode().decode('unicode_escape'), sys.argv[3]
+s = open(p).read(); assert s.count(a) == 1, (s.count(a), a); open(p, 'w').write(s.replace(a, b))
+P
+}
+export -f edit
 S=src/mxlpy/simulation.py
-if [ "$MODE" = snapshot ]; then
-run M1_fill_no_reapply "python3 - <<'P'
-p='$S'; s=open(p).read(); s=s.replace('            self.model.update_parameters(p)\n            self.raw_args.append(','            self.raw_args.append(',1); open(p,'w').write(s)
-P"
+if [ "$MODE" = current ]; then
+run M1_fill_no_reapply "edit '                self.model.update_parameters(p)\n                self.raw_args.append(' '                self.raw_args.append('"
 run M2_rhs_no_reapply "sed -i 's/self.model.update_parameters(p).get_right_hand_side_time_course(/self.model.get_right_hand_side_time_course(/' $S"
 run M3_start_plus_end "sed -i 's/        start = end$/        start += end/' $S"
-run M4_consumer_sign "sed -i 's/v.loc\[:, k\] \*= -stoichs\[k\]/v.loc[:, k] *= stoichs[k]/' $S"
-run M5_producer_ge "sed -i 's/            if v > 0$/            if v >= 0/' $S"
-run M6_no_invalidate "python3 - <<'P'
-p='src/mxlpy/model.py'; s=open(p).read(); s=s.replace('    @_invalidate_cache\n    def update_parameter(','    def update_parameter(',1); open(p,'w').write(s)
-P"
+run M6_no_invalidate "edit '    @_invalidate_cache\n    def update_parameter(' '    def update_parameter(' src/mxlpy/model.py"
 run M7_guard_gt1 "sed -i 's/if len(self.raw_args) > 0:/if len(self.raw_args) > 1:/' $S"
 run M8_scalar_mul "sed -i 's/return \[i \/ normalise for i in results\]/return [i * normalise for i in results]/' $S"
 run M9_y0_first "sed -i 's/).iloc\[-1\]/).iloc[0]/' $S"
-run M10_restore_first "sed -i 's/self.model.update_parameters(self.raw_parameters\[-1\])/self.model.update_parameters(self.raw_parameters[0])/' $S"
 run M11_perseg_noT "sed -i 's/return \[(i.T \/ j).T for i, j in zip(results, normalise, strict=True)\]/return [(i \/ j) for i, j in zip(results, reversed(normalise), strict=True)]/' $S"
-run M12_rhs_dyn_coef_at_t0 "python3 - <<'P'
-p='src/mxlpy/model.py'; s=open(p).read(); a=\"args=variables.to_dict() | {\\\"time\\\": time},\"; assert a in s, 'shape'; s=s.replace(a, \"args=variables.to_dict() | {\\\"time\\\": 0.0},\",1); open(p,'w').write(s)
-P"
-else
+run M12_rhs_dyn_coef_at_t0 "edit 'args=variables.to_dict() | {\"time\": time},' 'args=variables.to_dict() | {\"time\": 0.0},' src/mxlpy/model.py"
 run R1_mask_ge "sed -i 's/flux.loc\[:, names\].where(coef.loc\[:, names\] > 0)/flux.loc[:, names].where(coef.loc[:, names] >= 0)/' $S"
 run R2_names_all "sed -i 's/if any((c\[k\] > 0).any() for c in coefficients)/if any((c[k] > 0).all() for c in coefficients)/' $S"
 run R3_scale_first_segment "sed -i 's/for flux, coef in zip(fluxes, coefficients, strict=True)/for flux, coef in zip(fluxes, [coefficients[0].set_axis(f.index) if len(f) == len(coefficients[0]) else c for f, c in zip(fluxes, coefficients)], strict=True)/' $S"
 run R4_coef_time_zero "sed -i 's/values.to_dict() | {\"time\": time}/values.to_dict() | {\"time\": 0.0}/' $S"
-run R5_sign_dropped "python3 - <<'P'
-p='$S'; s=open(p).read(); a='                        sign\n                        * (\n'; assert a in s; s=s.replace(a,'                        1\n                        * (\n',1); open(p,'w').write(s)
-P"
-run R6_coef_from_initial_state "python3 - <<'P'
-p='$S'; s=open(p).read(); a='for time, values in args.iterrows()'; assert a in s; s=s.replace(a,'for time, values in args.assign(**self.model.get_initial_conditions()).iterrows()',1); open(p,'w').write(s)
-P"
+run R5_sign_dropped "edit '                        sign\n                        * (\n' '                        1\n                        * (\n'"
+run R6_coef_from_initial_state "edit 'for time, values in args.iterrows()' 'for time, values in args.assign(**self.model.get_initial_conditions()).iterrows()'"
+# the put-back mechanism of 4167248 (property C04's concern; C10 pins the shape and models the parameter state)
+run V1_fill_no_put_back "edit '        finally:\n            self.model.update_parameters(in_force)\n        return self.raw_args' '        finally:\n            pass\n        return self.raw_args'"
+run V2_rhs_no_put_back "edit '        finally:\n            self.model.update_parameters(in_force)\n        return self._adjust_data(\n            rhs,' '        finally:\n            pass\n        return self._adjust_data(\n            rhs,'"
+run V3_by_sign_leaves_last "edit '        if concatenated:\n            return pd.concat(fluxes, axis=0)\n        return fluxes' '        self.model.update_parameters(self.raw_parameters[-1])\n        if concatenated:\n            return pd.concat(fluxes, axis=0)\n        return fluxes'"
+run V4_put_back_before_the_loop "edit '        in_force = self._parameters_in_force()\n        try:\n            rhs = [' '        in_force = self._parameters_in_force()\n        self.model.update_parameters(self.raw_parameters[0])\n        try:\n            rhs = ['"
+run V5_rhs_under_in_force "edit '                self.model.update_parameters(p).get_right_hand_side_time_course(\n                    args=args\n                )' '                self.model.update_parameters(in_force).get_right_hand_side_time_course(\n                    args=args\n                )'"
+# seeded changes whose stored patch.diff no longer applies to /repo (context rewritten by 4167248), re-based
+run S1_seeded_C10_1_rebased "edit '                self.model.update_parameters(p).get_right_hand_side_time_course(\n                    args=args\n                )\n                for args, p in zip(args_by_simulation, self.raw_parameters, strict=True)' '                self.model.get_right_hand_side_time_course(args=args)\n                for args in args_by_simulation'"
+run S4_seeded_C10_4_rebased "edit '        if concatenated:\n            return pd.concat(fluxes, axis=0)\n        return fluxes' '        return self._adjust_data(\n            fluxes,\n            normalise=normalise,\n            concatenated=concatenated,\n        )'"
+run S5_seeded_C10_5 "patch -p1 -s < /verif/seeded/C10-5/patch.diff"
+else
 run R7_snapshot_plain_values "python3 - <<'P'
-import re
 p='src/mxlpy/simulator.py'; s=open(p).read(); i=s.index('                self.simulation_parameters.append(\n'); j=s.index('                )\n', i)+len('                )\n'); s=s[:i]+'                self.simulation_parameters.append(self.model.get_parameter_values())\n'+s[j:]; open(p,'w').write(s)
-P"
-run R8_no_restore "python3 - <<'P'
-p='$S'; s=open(p).read(); a='        self.model.update_parameters(self.raw_parameters[-1])\n        if concatenated:\n            return pd.concat(fluxes, axis=0)\n        return fluxes\n\n    @overload\n    def get_producers'; assert a in s; s=s.replace(a, a.replace('        self.model.update_parameters(self.raw_parameters[-1])\n',''),1); open(p,'w').write(s)
 P"
 fi
 echo DONE
